@@ -60,6 +60,7 @@ def units(tier):
         out.append({'fam': 'deepgroup', 'w': w})
     for part in spaces.shard(list(range(7, 131 if tier == 'quick' else 400)), 8):
         out.append({'fam': 'stridesweep', 'strides': part})
+    out.append({'fam': 'nptypes'})
     out.append({'fam': 'manykeys', 'keys': 4100})
     out.append({'fam': 'verylong', 'n': 140000})
     nest = [(2, 1), (2, 2), (3, 2), (1, 2), (3, 1)]
@@ -100,6 +101,12 @@ def cases(unit):
         # every stride in a wide range (slot arithmetic must be exact for all of them), window a little larger than the stride
         for st in unit['strides']:
             yield {'fam': 'top', 'w': st + 3, 's': st, 'n': 2 * st + 8}
+    elif fam == 'nptypes':
+        # window / stride given as numpy integers (what a configuration read with numpy or pandas hands over)
+        for w in range(1, 5):
+            for s in range(1, 5):
+                for kind in ('int64', 'int32', 'uint8'):
+                    yield {'fam': 'nptypes', 'w': w, 's': s, 'kind': kind, 'n': 2 * (w + s) + 1}
     elif fam == 'manykeys':
         yield {'fam': 'manykeys', 'keys': unit['keys'], 'w': 2, 's': 3}
         yield {'fam': 'manykeys', 'keys': unit['keys'] // 8, 'w': 3, 's': 2}
@@ -220,6 +227,28 @@ def run_case(case, acc):
 
     if fam in ('manykeys', 'verylong'):
         return run_big(case, acc)
+    if fam == 'nptypes':
+        import numpy as np
+        import rx
+        import rxsci as rs
+        from ..drivers import Sink
+        w, s, n = case['w'], case['s'], case['n']
+        t = getattr(np, case['kind'])
+        items = list(range(n))
+        exp = windows(items, w, s)
+        for wt, st in ((t(w), t(s)), (w, t(s)), (t(w), s)):
+            sink = Sink()
+            sink.subscribe_to(rx.from_(items).pipe(rs.state.with_memory_store([rs.data.roll(wt, st, [rs.data.to_list()])])))
+            acc.evals += 1
+            acc.events += n + 1
+            acc.traces += 1
+            if sink.error is not None or sink.items != exp:
+                out.append(viol('nptypes|windows-differ-for-numpy-integer-arguments',
+                                {'window': repr(wt), 'stride': repr(st), 'kind': case['kind'], 'expected': exp, 'observed': sink.items, 'error': repr(sink.error)}))
+                break
+        acc.count('numpy_integer_arguments')
+        acc.outcomes.add(fast_hash(repr((w, s, case['kind'], sink.items))))
+        return out
     if fam == 'grouped':
         w, s, order = case['w'], case['s'], case['order']
         pos = {}
